@@ -116,8 +116,8 @@ def perturbed(pd, kind="all"):
     return q
 
 
-def build_bay(pd):
-    """a stiffener-less StiffPanelBay whose single skin panel is the panel description"""
+def build_bay(pd, tiles=1):
+    """a stiffener-less StiffPanelBay whose skin (one panel, or `tiles` panels side by side) is the panel description"""
     from compmech.stiffpanelbay import StiffPanelBay
     b = StiffPanelBay()
     b.model = MODELS[pd["model"]]
@@ -134,12 +134,14 @@ def build_bay(pd):
     b.plyts = [float(fr(pl["t"])) for pl in pd["stack"]]
     b.laminaprops = [tuple(float(fr(x)) for x in pl["mat"]) for pl in pd["stack"]]
     b.mu = float(fr(pd["mu"]))
-    b.add_panel(y1=0., y2=b.b, offset=float(fr(pd["off"])))
+    cuts = [b.b * k / tiles for k in range(tiles)] + [b.b]
+    for y1, y2 in zip(cuts[:-1], cuts[1:]):
+        b.add_panel(y1=y1, y2=y2, offset=float(fr(pd["off"])))
     return b
 
 
 def observe_bay_aero(pd, req):
-    b = build_bay(pd)
+    b = build_bay(pd, tiles=req.get("tiles", 1))
     q = req["q"]
     b.flow = req.get("flow", "x")
     if q == "kAmach":
@@ -587,7 +589,7 @@ def well_posed(pd):
 def jreq(r):
     out = dict(q=r["q"], size=r.get("size", 0), row0=r.get("row0", 0), col0=r.get("col0", 0))
     for k in ("N", "flow", "beta", "gamma", "aeromu", "c", "pts", "NL", "forces", "forcesInc", "inc", "cores", "num", "extra", "table",
-              "mach", "root", "rho", "V", "ainf", "via", "k0first", "taper", "route", "ctor", "nofin", "sweep", "dflt", "vialb", "rows", "pre", "nok0", "lbstudy"):
+              "mach", "root", "rho", "V", "ainf", "via", "k0first", "taper", "route", "ctor", "nofin", "sweep", "dflt", "vialb", "rows", "pre", "nok0", "lbstudy", "tiles"):
         if k in r:
             out[k] = r[k]
     return out
@@ -782,7 +784,8 @@ def run_prop(prop, qs, tier, seed, build, nrand_quick=40, nrand_thorough=600, wh
     pairs = [(v[1], v[2]) for v in printed_values(mc.out, "REQ")]
     pairs = [(pd, r) for pd, r in pairs if r["q"] in qs]
     if set(qs) & {"kA", "cA", "kAmach"}:   # the lattice aerodynamic cases also through a stiffener-less bay
-        pairs += [(pd, dict(r, via="bay", k0first=(k % 2 == 0))) for k, (pd, r) in enumerate(pairs) if pd["model"] != "plate_w"]
+        # a bay's skin is usually split at the stiffeners: 1, 2 or 3 skin panels side by side must give the same matrix
+        pairs += [(pd, dict(r, via="bay", k0first=(k % 2 == 0), tiles=1 + k % 3)) for k, (pd, r) in enumerate(pairs) if pd["model"] != "plate_w"]
         pairs += [(pd, dict(r, sweep=True)) for (pd, r) in pairs if r["q"] in ("kA", "kAmach") and not r.get("via")]
     if "kGc" in qs:      # the state-based matrix asked through Panel.lb right after a change of the laminate on ONE object
         for k, (pd, r) in enumerate(list(pairs)):
@@ -815,6 +818,8 @@ def run_prop(prop, qs, tier, seed, build, nrand_quick=40, nrand_thorough=600, wh
         r = random_req(rng, pd, q)
         if q in ("kA", "kAmach"):
             restrain_flow_edges(pd, r["flow"])
+        if q in ("kA", "cA", "kAmach") and pd["model"] != "plate_w" and rng.random() < 0.4:
+            r["via"], r["tiles"], r["k0first"] = "bay", rng.randint(1, 3), rng.random() < 0.5
         if q in ("fint", "kT", "kGc"):
             pd["m"], pd["n"] = min(pd["m"], 3), min(pd["n"], 3)
             if q == "fint" and rng.random() < 0.3:
